@@ -253,16 +253,19 @@ func (m *BaseUndoLogManager) Undo(ctx context.Context, dbType types.DBType, xid 
 	if err != nil {
 		return err
 	}
+	defer conn.Close()
 
 	tx, err := conn.BeginTx(ctx, &sql.TxOptions{})
 	if err != nil {
 		return err
 	}
+	// whatever way this function is left without a successful commit, the
+	// transaction is rolled back; the reason for leaving stays in err
+	committed := false
 	defer func() {
-		if err != nil {
-			if err = tx.Rollback(); err != nil {
-				log.Errorf("rollback fail, xid: %s, branchID:%s err:%v", xid, branchID, err)
-				return
+		if !committed {
+			if rbErr := tx.Rollback(); rbErr != nil {
+				log.Errorf("rollback fail, xid: %s, branchID:%s err:%v", xid, branchID, rbErr)
 			}
 		}
 	}()
@@ -273,9 +276,8 @@ func (m *BaseUndoLogManager) Undo(ctx context.Context, dbType types.DBType, xid 
 		return err
 	}
 	defer func() {
-		if err = stmt.Close(); err != nil {
-			log.Errorf("stmt close fail, xid: %s, branchID:%s err:%v", xid, branchID, err)
-			return
+		if closeErr := stmt.Close(); closeErr != nil {
+			log.Errorf("stmt close fail, xid: %s, branchID:%s err:%v", xid, branchID, closeErr)
 		}
 	}()
 
@@ -285,9 +287,8 @@ func (m *BaseUndoLogManager) Undo(ctx context.Context, dbType types.DBType, xid 
 		return err
 	}
 	defer func() {
-		if err = rows.Close(); err != nil {
-			log.Errorf("rows close fail, xid: %s, branchID:%s err:%v", xid, branchID, err)
-			return
+		if closeErr := rows.Close(); closeErr != nil {
+			log.Errorf("rows close fail, xid: %s, branchID:%s err:%v", xid, branchID, closeErr)
 		}
 	}()
 
@@ -375,8 +376,9 @@ func (m *BaseUndoLogManager) Undo(ctx context.Context, dbType types.DBType, xid 
 
 	if err = tx.Commit(); err != nil {
 		log.Errorf("[Undo] execute on fail, err: %v", err)
-		return nil
+		return err
 	}
+	committed = true
 	return nil
 }
 
